@@ -75,6 +75,27 @@ func (m *Machine) callNd(fn *ssa.Function, args []Value) Value {
 		return nil
 	case "Symbolic":
 		return st.True
+	case "FreezeDeep":
+		m.freeze(args[0], str(1), true, map[interface{}]bool{})
+		return nil
+	case "FreezeShallow":
+		m.freeze(args[0], str(1), false, map[interface{}]bool{})
+		return nil
+	case "FreezeGlobals":
+		for g, cell := range m.globals {
+			if g.Pkg != nil && m.P.isInterpPkg(g.Pkg.Pkg.Path()) && !strings.Contains(g.Pkg.Pkg.Path(), "/zzverif/") && !isHarnessGlobal(m, g) {
+				m.freezeCell(cell, "global "+g.Pkg.Pkg.Path()+"."+g.Name())
+				m.freeze(*cell, "global "+g.Name(), true, map[interface{}]bool{})
+			}
+		}
+		return nil
+	case "FrozenWrites":
+		return st.BV(64, uint64(len(m.frozenWrites)))
+	case "FrozenWriteNote":
+		if len(m.frozenWrites) > 0 {
+			return m.MkStr(m.frozenWrites[0])
+		}
+		return m.MkStr("")
 	case "IsConcrete":
 		// reports whether a scalar/string is fully concrete (harness optimisation hooks)
 		switch x := args[0].(Iface).V.(type) {
@@ -88,6 +109,100 @@ func (m *Machine) callNd(fn *ssa.Function, args []Value) Value {
 	}
 	unsupportedf("unknown nd function %s", name)
 	return nil
+}
+
+func isHarnessGlobal(m *Machine, g *ssa.Global) bool {
+	pos := m.P.Fset.Position(g.Pos())
+	return strings.Contains(pos.Filename, "zz_verif_")
+}
+
+func (m *Machine) freezeCell(p *Value, what string) {
+	if m.frozen == nil {
+		m.frozen = map[*Value]string{}
+		m.frozenMaps = map[*Map]string{}
+	}
+	if p != nil {
+		m.frozen[p] = what
+	}
+}
+
+// freeze marks the memory reachable from v (deep) or just the pointee's own fields (shallow).
+func (m *Machine) freeze(v Value, what string, deep bool, seen map[interface{}]bool) {
+	if m.frozen == nil {
+		m.frozen = map[*Value]string{}
+		m.frozenMaps = map[*Map]string{}
+	}
+	switch x := v.(type) {
+	case Iface:
+		m.freeze(x.V, what, deep, seen)
+	case *Value:
+		if x == nil || seen[x] {
+			return
+		}
+		seen[x] = true
+		m.frozen[x] = what
+		m.freezeAggregate(*x, what, deep, seen)
+	case Struct, Array:
+		m.freezeAggregate(x, what, deep, seen)
+	case Slice:
+		if !deep {
+			return
+		}
+		for i := 0; i < x.Len; i++ {
+			m.frozen[&x.A[i]] = what + "[]"
+			m.freeze(x.A[i], what+"[]", deep, seen)
+		}
+	case *Map:
+		if x == nil || seen[x] || !deep {
+			return
+		}
+		seen[x] = true
+		m.frozenMaps[x] = what
+		for _, k := range x.Keys {
+			e, _ := x.Get(m.keyString(k))
+			m.freeze(e, what+"[k]", deep, seen)
+		}
+	case *Closure:
+		if x != nil && deep {
+			for _, e := range x.Env {
+				m.freeze(e, what+".closure", deep, seen)
+			}
+		}
+	}
+}
+
+func (m *Machine) freezeAggregate(v Value, what string, deep bool, seen map[interface{}]bool) {
+	switch a := v.(type) {
+	case Struct:
+		for i := range a {
+			m.frozen[&a[i]] = what
+			if deep {
+				m.freeze(a[i], what, deep, seen)
+			} else {
+				m.freezeAggregateShallow(a[i], what)
+			}
+		}
+	case Array:
+		for i := range a {
+			m.frozen[&a[i]] = what
+			if deep {
+				m.freeze(a[i], what, deep, seen)
+			}
+		}
+	default:
+		if deep {
+			m.freeze(v, what, deep, seen)
+		}
+	}
+}
+
+func (m *Machine) freezeAggregateShallow(v Value, what string) {
+	if s, ok := v.(Struct); ok {
+		for i := range s {
+			m.frozen[&s[i]] = what
+			m.freezeAggregateShallow(s[i], what)
+		}
+	}
 }
 
 func (m *Machine) intOf(v Value) int { return m.concreteInt(v, "intrinsic int argument") }
